@@ -103,9 +103,22 @@ type c02Run struct {
 
 func (c *c02) judge(r *core.R, run c02Run) {
 	sig := func(s string) string { return s + "|" + run.op }
+	// Directories on the way to a protected file may be (re)created by Repair.
+	isAncestorOfProtected := func(dir string) bool {
+		for pp := range run.protected {
+			if strings.HasPrefix(pp, dir+string(filepath.Separator)) {
+				return true
+			}
+		}
+		return false
+	}
 	wrote := map[string]bool{}
 	for _, w := range run.writes {
 		w = filepath.Clean(w)
+		if run.op == "repair" && isAncestorOfProtected(w) {
+			r.Count("directories_recreated", 1)
+			continue
+		}
 		wrote[w] = true
 		if _, ok := run.protected[w]; !ok {
 			r.Violate(sig("write-to-non-protected-path"), "%s [%s]: mutating event on %q, which is not a protected file of the set; %s", run.op, run.layer, w, run.desc)
@@ -124,6 +137,9 @@ func (c *c02) judge(r *core.R, run c02Run) {
 		parts := strings.SplitN(d, " ", 2)
 		abs := filepath.Join(run.root, parts[1])
 		orig, isProt := run.protected[abs]
+		if !isProt && run.op == "repair" && parts[0] == "created" && isAncestorOfProtected(abs) {
+			continue
+		}
 		if !isProt {
 			r.Violate(sig("non-protected-file-changed"), "%s [%s]: %s (not a protected file); %s", run.op, run.layer, d, run.desc)
 			continue
